@@ -16,5 +16,5 @@ CONSTANTS
   AllowAbort = FALSE
   Bug = {}
   GenMode = "c10part"
-INVARIANT EmitTrace
+INVARIANTS EmitTrace TypeOK FailsExactlyWhen DenialIsExplicit BothAgree FollowsTable CanTalkBothWays
 CHECK_DEADLOCK FALSE
